@@ -205,7 +205,7 @@ impl<'a> PGen<'a> {
             PK::String => {
                 e.key(tag, 2);
                 let n = self.str_len();
-                let s: Vec<u8> = (0..n).map(|_| b'a' + self.r.below(26) as u8).collect();
+                let s: Vec<u8> = if self.r.chance(1, 3) { crate::tval::multibyte_text(self.r, n) } else { (0..n).map(|_| b'a' + self.r.below(26) as u8).collect() };
                 e.len_prefixed(&s, true);
             }
             PK::Bytes => {
